@@ -65,6 +65,26 @@ PROPS = {
                      "not as an obligation", "solver contract (as C02)"],
         trusted=S_COMMON + T_SOLVER,
     ),
+    "C13": dict(
+        functions=[CT + "Unit.__lt__"] + [CT + "Continuum." + m for m in (
+            "__init__", "add", "add_annotator", "remove", "copy", "copy_flush", "merge", "__add__", "reset_bounds", "__iter__",
+            "iter_annotator", "num_units", "num_annotators", "__len__", "__bool__", "annotators", "categories", "bounds",
+            "avg_num_annotations_per_annotator")],
+        oracles=[CT + "Continuum.merge"],
+        bounded=[dict(oracle=CT + "Continuum.__eq__",
+                      what="__eq__ / __ne__ / __getitem__ / iterunits are not under contract (zip of two generators needs the "
+                           "canonical-enumeration induction): random operation histories (length <= 14, 3 annotators, labels incl. None, "
+                           "zero-length and duplicate segments) against a plain set-per-annotator model; also cross-checks every "
+                           "operation that IS proved")],
+        design_ref="DESIGN.md section 4 C13, appendix A.6",
+        not_decided=["__eq__ is an equivalence on (annotators, units): bounded stand-in only",
+                     "'any history' is the induction the per-operation contracts give: each operation requires RI and the whole old view "
+                     "and ensures RI and the whole new view"],
+        trusted=S_COMMON + ["model: sortedcontainers SortedSet / SortedDict incl. its enumeration invariant; precondition unit_order is "
+                            "proved (lemmas unit_order_* + Unit.__lt__ == documented order)", "model: copy.deepcopy",
+                            "model: pyannote Segment (duration / bool with SEGMENT_PRECISION)", "model: python aggregates over generator expressions",
+                            "S6 dataclass equality"],
+    ),
     "C07": dict(
         functions=[NU + "iter_tuples", NU + "extend_right_alignments", NU + "extend_right_disorders",
                    DS + "AbstractDissimilarity._get_all_valid_alignments"],
